@@ -13,19 +13,28 @@
 (*            1 = entered, 1+i = i fields rendered, K+2 = exited            *)
 (*  seen[t]   the context value each rendered field observed                *)
 (*                                                                          *)
-(* A job j renders K[j] fields between CtxEnter and CtxExit; a job may be   *)
+(*  built[t]  build steps of the current pipeline done so far               *)
+(*  memo[s]   whatever the pipeline objects memoise while building (the     *)
+(*            generator, the registry and their helpers are created per     *)
+(*            call: every call has its own; "none" = nothing memoised yet)  *)
+(*                                                                          *)
+(* A job j first takes B[j] build steps (merge_models, every pair           *)
+(* comparison, every group merge: each may read and fill what its pipeline  *)
+(* memoises), then                                                          *)
+(* renders K[j] fields between CtxEnter and CtxExit; a job may be           *)
 (* planned to fail after F[j] reads (99 = no failure): the exception leaves *)
 (* through the context manager, which restores the context.                 *)
 (* Shared = TRUE models the (wrong) design with one context for all         *)
-(* threads; it is used to obtain the interleavings that would break SoloEq. *)
+(* threads and one process-wide memo table for all pipelines; it is used to *)
+(* obtain the interleavings that would break SoloEq.                        *)
 (***************************************************************************)
 EXTENDS Naturals, Sequences, FiniteSets, TLC
 
-CONSTANTS Threads, Jobs, K, F, ProgSet, Shared
+CONSTANTS Threads, Jobs, K, F, B, ProgSet, Shared
 \* prog[t] = sequence of jobs thread t runs one after the other (chosen from ProgSet at Init)
 
-VARIABLES prog, ctx, old, pos, cur, seen, done, sched
-vars == <<prog, ctx, old, pos, cur, seen, done, sched>>
+VARIABLES prog, ctx, old, pos, cur, seen, done, sched, built, memo
+vars == <<prog, ctx, old, pos, cur, seen, done, sched, built, memo>>
 Prog == prog
 
 Slot(t) == IF Shared THEN "all" ELSE t
@@ -37,15 +46,25 @@ Init == /\ prog \in ProgSet
         /\ seen = [t \in Threads |-> <<>>]
         /\ done = [t \in Threads |-> <<>>]
         /\ sched = <<>>
+        /\ built = [t \in Threads |-> 0]
+        /\ memo = [s \in (IF Shared THEN {"all"} ELSE Threads) |-> "none"]
 
 Job(t) == Prog[t][cur[t]]
 Active(t) == cur[t] <= Len(Prog[t])
-CtxEnter(t) == /\ Active(t) /\ pos[t] = 0
+\* one build step: it sees what its pipeline memoised so far (its own job's data, or nothing yet) and memoises
+BuildStep(t) == /\ Active(t) /\ pos[t] = 0 /\ built[t] < B[Job(t)]
+                /\ LET obs == IF memo[Slot(t)] = "none" THEN Job(t) ELSE memo[Slot(t)] IN
+                   /\ memo' = [memo EXCEPT ![Slot(t)] = obs]
+                   /\ seen' = [seen EXCEPT ![t] = Append(@, obs)]
+                /\ built' = [built EXCEPT ![t] = @ + 1]
+                /\ sched' = Append(sched, t)
+                /\ UNCHANGED <<prog, ctx, old, pos, cur, done>>
+CtxEnter(t) == /\ Active(t) /\ pos[t] = 0 /\ built[t] = B[Job(t)]
                /\ old' = [old EXCEPT ![t] = ctx[Slot(t)]]
                /\ ctx' = [ctx EXCEPT ![Slot(t)] = Job(t)]
                /\ pos' = [pos EXCEPT ![t] = 1]
                /\ sched' = Append(sched, t)
-               /\ UNCHANGED <<prog, cur, seen, done>>
+               /\ UNCHANGED <<prog, cur, seen, done, built, memo>>
 \* F[j] = number of context reads after which job j fails (0: right after entering); NoFail = it does not fail
 NoFail == 99
 Fails(t) == F[Job(t)] # NoFail /\ pos[t] - 1 = F[Job(t)]
@@ -53,7 +72,7 @@ RenderField(t) == /\ Active(t) /\ pos[t] >= 1 /\ pos[t] <= K[Job(t)] /\ ~Fails(t
                   /\ seen' = [seen EXCEPT ![t] = Append(@, ctx[Slot(t)])]
                   /\ pos' = [pos EXCEPT ![t] = @ + 1]
                   /\ sched' = Append(sched, t)
-                  /\ UNCHANGED <<prog, ctx, old, cur, done>>
+                  /\ UNCHANGED <<prog, ctx, old, cur, done, built, memo>>
 \* normal exit after the last field, or exceptional exit at the planned failure point: both restore
 CtxExit(t) == /\ Active(t) /\ pos[t] >= 1 /\ (pos[t] = K[Job(t)] + 1 \/ Fails(t))
               /\ ctx' = [ctx EXCEPT ![Slot(t)] = old[t]]
@@ -62,8 +81,10 @@ CtxExit(t) == /\ Active(t) /\ pos[t] >= 1 /\ (pos[t] = K[Job(t)] + 1 \/ Fails(t)
               /\ pos' = [pos EXCEPT ![t] = 0]
               /\ cur' = [cur EXCEPT ![t] = @ + 1]
               /\ sched' = Append(sched, t)
+              /\ built' = [built EXCEPT ![t] = 0]
+              /\ memo' = [memo EXCEPT ![Slot(t)] = "none"]         \* the pipeline's objects go away with the call
               /\ UNCHANGED <<prog, old>>
-Next == \E t \in Threads : CtxEnter(t) \/ RenderField(t) \/ CtxExit(t)
+Next == \E t \in Threads : BuildStep(t) \/ CtxEnter(t) \/ RenderField(t) \/ CtxExit(t)
 Spec == Init /\ [][Next]_vars /\ WF_vars(Next)
 
 AllDone == \A t \in Threads : ~Active(t)
